@@ -45,6 +45,13 @@ def step (b : Cb) (toks : List String) : Cb × List String :=
   | ["cbcfg", typ, oh, ot] =>
     ({ c := { typ := typ.toNat?.getD 2, onHold := oh == "1", onToggle := ot == "1", pressUs := Gen.cfgBtnPressTimeMs * 1000,
               count := Gen.cfgBtnPressCount, windowUs := 2000000 } }, [])
+  | ["bootcfg", variant, bits] =>
+    -- bits: locId0 locPwd0 email0 server0 wifiPwd0 ssid0 mqttEnabled mqttNoAuth locked as 0/1 characters
+    let v := bits.toList.map (· == '1')
+    let c : BootCfg := { locId0 := v.getD 0 false, locPwd0 := v.getD 1 false, email0 := v.getD 2 false, server0 := v.getD 3 false,
+                         wifiPwd0 := v.getD 4 false, ssid0 := v.getD 5 false, mqttEnabled := v.getD 6 false,
+                         mqttNoAuth := v.getD 7 false, locked := v.getD 8 false }
+    (b, [s!"BOOT cfgmode={if (if variant == "mqtt" then bootCfgModeMqtt c else bootCfgModeBase c) then 1 else 0}"])
   | "cbspan" :: tend :: evs =>
     match tend.toNat? with
     | none => (b, ["BADOP"])
